@@ -76,6 +76,7 @@ def walk(w, rnd, profile, steps, opts):
             if rnd.random() < 0.12:
                 w.on_cb(a, rnd.choice(["onPublish", "onMqttConnectionMade", "onMqttConnectionMade", "onDisconnection"]), reaction(w, rnd, a))
         return line
+    w.fire_limit = opts.get("fire_limit", 12)
     do(w.build(a))
     if opts.get("wrap"):
         do(w.pokeid(rnd.randint(65528, 65535)))
@@ -163,7 +164,7 @@ def walk(w, rnd, profile, steps, opts):
             elif k < 0.7:
                 do(w.set(a, "timeout", rnd.choice([1, 2, 4, 7, 1024] if rnd.random() < 0.92 else [0, 1025])))
             elif k < 0.85:
-                do(w.set(a, "bandwith", rnd.choice([1000, 10000, 1, 1000000] if rnd.random() < 0.92 else [0, -5]), rnd.choice([None, 1, 2, 3])))
+                do(w.set(a, "bandwith", rnd.choice([1000, 10000, 1, 1000000] if rnd.random() < 0.92 else [0, -5]), rnd.choice(opts.get("factors", [None, 1, 2, 3]))))
             else:
                 do(w.set(a, rnd.choice(["onPublish", "onDisconnection", "onMqttConnectionMade"]), rnd.randint(0, 1)))
         elif name == "fire":
@@ -245,7 +246,7 @@ def main():
         if fam == "session":      # many losses of every kind, several generations, both session modes
             opts.update(maxgen=5, wt={"lost": 2.2, "disconnect": 0.8, "garbage": 0.5, "publish": 6, "fire": 1.5}, ka=[0, 0, 2])
         elif fam == "retry":      # long runs of expiries under varied timeouts / bandwidths
-            opts.update(maxgen=2, maxfires=24, drain=10, wt={"fire": 9, "set": 2.5, "lost": 0.2, "disconnect": 0.05, "publish": 4}, ka=[0])
+            opts.update(maxgen=2, maxfires=24, drain=10, factors=[None, 1, 2], fire_limit=20, wt={"fire": 9, "set": 2.5, "lost": 0.2, "disconnect": 0.05, "publish": 4}, ka=[0])
         elif fam == "keepalive":
             opts.update(maxgen=3, maxfires=30, drain=4, wt={"fire": 6, "idle": 4, "lost": 0.4, "publish": 1.5, "subscribe": 0.5, "unsubscribe": 0.3}, ka=[1, 2, 5, 60, 0])
         elif fam == "qos2":       # QoS 2 exchanges only, mostly persistent sessions, publishes before CONNACK, many expiries
